@@ -56,6 +56,8 @@ def one(m):
         hit = [l for l in fired if m["expect"] in l]
         if hit:
             return m["id"], "CAUGHT", hit[0].strip()[:200]
+        if rc not in (0, 1):
+            return m["id"], "CRASH", "the checker died (status %s): %s" % (rc, out[:300].replace("\n", " | "))
         return m["id"], "MISSED", ("; ".join(x.strip()[:160] for x in fired) or "silent")
     finally:
         shutil.rmtree(d, ignore_errors=True)
@@ -80,6 +82,8 @@ def one_seed(sid):
         hit = [l for l in fired if any("[" + rule + "]" in l for rule in meta.get("caught_by", []))]
         if hit:
             return sid, "CAUGHT", hit[0][:200]
+        if rc not in (0, 1):
+            return sid, "CRASH", "the checker died (status %s): %s" % (rc, out[:300].replace("\n", " | "))
         return sid, "MISSED", ("; ".join(x[:160] for x in fired) or "silent")
     finally:
         shutil.rmtree(d, ignore_errors=True)
